@@ -359,30 +359,73 @@ def rule_KN(run: Run) -> RuleResult:
     repo = run.repo
     nec = "a missing option must be reported with its key and the object that needed it (C04, C12)"
     n = 0
-    detail_kn = ""
+    # every KeyNotFoundError the library builds — raised on the spot or returned by a private helper for the caller to raise —
+    # names (a) the object that needed the option: `self` in an expression class, elsewhere a parameter / attribute declared as
+    # an expression; (b) the key: the option's own key, or the key of the exception being translated (element 0 of its args)
+    def _node_typed(e: ast.expr, fn_, cls_, mod_) -> bool:
+        ann = None
+        if isinstance(e, ast.Name):
+            for a_ in fn_.args.posonlyargs + fn_.args.args + fn_.args.kwonlyargs:
+                if a_.arg == e.id:
+                    ann = a_.annotation
+        elif isinstance(e, ast.Attribute) and isinstance(e.value, ast.Name) and e.value.id == "self" and cls_ is not None:
+            for st in cls_.body if hasattr(cls_, "body") else []:
+                if isinstance(st, ast.AnnAssign) and isinstance(st.target, ast.Name) and st.target.id == e.attr:
+                    ann = st.annotation
+        if ann is None:
+            return False
+        txt = ann.value if isinstance(ann, ast.Constant) and isinstance(ann.value, str) else ast.unparse(ann)
+        return txt.split("[")[0].split(".")[-1] in ("Evaluatable", "Cacheable", "Validatable", "Explainable")
+
     for m, cls, fn, q in iter_functions(repo):
-        for r in astu.walk_no_nested(fn):
-            if isinstance(r, ast.Raise) and isinstance(r.exc, ast.Call) and astu.short_name(r.exc) == "KeyNotFoundError":
-                n += 1
-                a = r.exc.args
-                ok = len(a) == 2 and ast.unparse(a[1]) == "self"
-                h0 = _enclosing_handler(fn, r)
-                if ok and cls is not None and cls.name == "Option" and not (h0 is not None and h0.name):
-                    ok = ast.unparse(a[0]) == "self.key"
-                elif ok:
-                    # translated from a caught exception: key taken from it
-                    h = _enclosing_handler(fn, r)
-                    ok = h is not None and h.name is not None and any(astu.contains_name(a[0], d_) for d_ in _derived_from(h, h.name))
-                    if ok and r.cause is None:
-                        ok = False
-                    if ok:
-                        # the caught KeyError's own key when it has one, a fall-back otherwise: element 0 of (*e.args, fallback)
-                        pick = _picked_element(h, a[0], h.name)
+        if m.name.startswith("labrea.mypy"):
+            continue
+        cls_info = repo.classes.get(f"{m.name}.{cls.name}") if cls is not None else None
+        in_node_class = cls_info is not None and cls_info.is_subclass_of("Evaluatable")
+        cls_node = cls if cls is None or hasattr(cls, "body") else getattr(cls, "node", None)
+        pm_ = None
+        for c_ in astu.walk_no_nested(fn):
+            if not (isinstance(c_, ast.Call) and astu.short_name(c_) == "KeyNotFoundError"):
+                continue
+            if cls is not None and cls.name == "KeyNotFoundError":
+                continue
+            n += 1
+            if pm_ is None:
+                pm_ = astu.parent_map(fn)
+            stmt = c_
+            while id(stmt) in pm_ and not isinstance(stmt, ast.stmt):
+                stmt = pm_[id(stmt)]
+            a = c_.args
+            detail_kn = ""
+            ok = len(a) == 2 and ((ast.unparse(a[1]) == "self" and in_node_class) or (not in_node_class and _node_typed(a[1], fn, cls_node, m)))
+            if not ok:
+                detail_kn = "the source is not the expression that needed the option"
+            h = _enclosing_handler(fn, c_)
+            seeds = [h.name] if h is not None and h.name else []
+            if not seeds:
+                for a_ in fn.args.posonlyargs + fn.args.args + fn.args.kwonlyargs:
+                    txt = ast.unparse(a_.annotation) if a_.annotation is not None else ""
+                    if isinstance(a_.annotation, ast.Constant) and isinstance(a_.annotation.value, str):
+                        txt = a_.annotation.value
+                    if any(w in txt for w in ("KeyError", "KeyNotFoundError", "BaseException", "Exception")):
+                        seeds.append(a_.arg)
+            if ok and cls is not None and cls.name == "Option" and not seeds:
+                ok = ast.unparse(a[0]) == "self.key"
+            elif ok:
+                # translated from an exception (caught here, or handed in): key taken from it
+                scope = h if h is not None else fn
+                ok = bool(seeds) and any(astu.contains_name(a[0], d_) for s_ in seeds for d_ in _derived_from(scope, s_))
+                if ok and isinstance(stmt, ast.Raise) and stmt.cause is None:
+                    ok = False
+                    detail_kn = "the translation is not chained to the exception it translates"
+                if ok:
+                    # the exception's own key when it has one, a fall-back otherwise: element 0 of (*e.args, fallback)
+                    for s_ in seeds:
+                        pick = _picked_element(scope, a[0], s_)
                         if pick is not None and not pick[0]:
                             ok = False
                             detail_kn = pick[1]
-                res.add(f"{q}:raise KeyNotFoundError names key and source", ok, m.relpath, r.lineno, (detail_kn + ": " if not ok and detail_kn else "") + ast.unparse(r)[:100], nec)
-                detail_kn = ""
+            res.add(f"{q}:raise KeyNotFoundError names key and source", ok, m.relpath, c_.lineno, (detail_kn + ": " if not ok and detail_kn else "") + ast.unparse(stmt)[:100], nec)
     if n < 4:
         raise AnalysisError(f"only {n} KeyNotFoundError raise sites found")
     # every construction of one of the library's error records (a raise of an EvaluationError / CacheFailure subclass, and the
